@@ -167,6 +167,12 @@ Definition lcov (L : lapper) : N := match cov_c L with Some c => c | None => cov
 Definition lset_cov (L : lapper) : lapper :=
   mkL (ivs L) (starts L) (stops L) (max_len L) (Some (cov_calc (ivs L))) (merged L).
 
+(* Lapper::is_empty / len; PartialEq and Ord of Interval (val ignored) *)
+Definition lis_empty (L : lapper) : bool := match ivs L with [] => true | _ => false end.
+Definition llen (L : lapper) : nat := length (ivs L).
+Definition iv_eq (a b : iv) : bool := key_eqb a b.
+Definition iv_cmp (a b : iv) : comparison := if key_ltb a b then Lt else if key_eqb a b then Eq else Gt.
+
 (* histories *)
 Inductive lop := Insert (i : iv) | Merge | SetCov.
 Definition lstep (r : res lapper) (o : lop) : res lapper :=
